@@ -601,6 +601,8 @@ pub enum Token {
     },
     MacroInvocation {
         id: Located<Identifier>,
+        /// The scope the macro's body is expanded in: every invocation has its own
+        invocation_scope: Box<Identifier>,
         lparen: Located<char>,
         args: Vec<ArgItem<Expression>>,
         rparen: Located<char>,
@@ -1098,6 +1100,7 @@ impl Display for Token {
             }
             Token::MacroInvocation {
                 id: name,
+                invocation_scope: _,
                 lparen,
                 args,
                 rparen,
